@@ -52,7 +52,18 @@ def add(w, name, agg, oracle=None, zero_ok=False, cols=("x",), rank=None):
     return key
 
 
-VAL, VCK, GCOL, GSER, GSTREAM = {}, {}, {}, {}, {}
+def _two(first, second):
+    """two aggregations alive on the same window, the checked one built first"""
+    def f(x):
+        a = first(x)
+        b = second(x)
+        if hasattr(b, "stream"):
+            f.keep = b.stream.sink_to_list()
+        return a
+    return f
+
+
+VAL, VCK, GCOL, GSER, GSTREAM, EXTRA = {}, {}, {}, {}, {}, {}
 GOPS = ("sum", "count", "size", "mean", "var", "std")
 for w in WINS:
     v = VAL[w] = []
@@ -77,6 +88,31 @@ for w in WINS:
                         lambda d, w=w: W(d, w).groupby(d.k).x.sum(), lambda view: view.groupby(view.k).x.sum(),
                         win=w, classify=CLS, rank=1)
     GSTREAM[w] = [key]
+    # second catalogue: other ddof values, frame-wide size, the windowed groupby std with ddof, two pipelines at once
+    x2 = EXTRA[w] = []
+    x2.append(add(w, "var[ddof=2]", lambda x: x.x.var(ddof=2)))
+    x2.append(add(w, "std[ddof=2]", lambda x: x.x.std(ddof=2)))
+    x2.append(add(w, "size[frame]", lambda x: x[XY].size, cols=XY))
+    x2.append(add(w, "count[frame]", lambda x: x[XY].count(), cols=XY))
+    x2.append(add(w, "var[frame]", lambda x: x[XY].var(), cols=XY))
+    x2.append(add(w, "groupby(col).std[ddof=0]", lambda x: x.groupby("k").x.std(ddof=0)))
+    x2.append(add(w, "groupby(col).var[ddof=2]", lambda x: x.groupby("k").x.var(ddof=2)))
+    x2.append(add(w, "groupby(series).std[ddof=0]", lambda x: x.groupby(x.k).x.std(ddof=0)))
+    x2.append(add(w, "groupby(col).mean[frame]", lambda x: x.groupby("k")[XY].mean(), cols=XY))
+    x2.append(add(w, "two:var(ddof=1)|var(ddof=0)", _two(lambda x: x.x.var(ddof=1), lambda x: x.x.var(ddof=0))))
+    x2.append(add(w, "two:groupby.var(ddof=1)|var(ddof=0)", _two(lambda x: x.groupby("k").x.var(ddof=1), lambda x: x.groupby("k").x.var(ddof=0))))
+    x2.append(add(w, "two:groupby.var(ddof=0)|var(ddof=1)", _two(lambda x: x.groupby("k").x.var(ddof=0), lambda x: x.groupby("k").x.var(ddof=1))))
+    if w[0] == "t":
+        # the duration given positionally: window('2s')
+        key = "%s.sum[positional]" % wlabel(w)
+        SPECS[key] = F.Spec(key, "%s.sum" % wsite(w), "window", lambda d, w=w: d.window(w[1]).x.sum(), lambda view: view.x.sum(),
+                            win=w, classify=CLS, rank=1)
+        x2.append(key)
+    else:
+        key = "%s.sum[positional]" % wlabel(w)
+        SPECS[key] = F.Spec(key, "%s.sum" % wsite(w), "window", lambda d, w=w: d.window(w[1]).x.sum(), lambda view: view.x.sum(),
+                            win=w, classify=CLS, rank=1)
+        x2.append(key)
 
 NW = [w for w in WINS if w[0] == "n"]
 TS = [w for w in WINS if w[0] == "t" and not w[1].endswith("ns")]
@@ -109,6 +145,11 @@ def plan(ctx):
             su.append(F.Suite(grp, "kv3", {1: 1, 2: 1}))
             su.append(F.Suite(GCOL[w], "kv3", {3: 1 if w[1] == 2 else 0}))
             su.append(F.Suite(pick(GSER, w, ("sum", "size", "var")), "kv3", {3: 0}))
+    for w in NW:
+        su.append(F.Suite(EXTRA[w], "kv3", {1: 1, 2: 1, 3: 1} if not th else {1: 2, 2: 2, 3: 2, 4: 1}))
+        su.append(F.Suite(EXTRA[w], "inc", {3: 0, 4: 0} if not th else {3: 2, 4: 1}))
+        zero = pick(VAL, w, ("mean", "sum", "var", "mean[frame]")) + pick(GCOL, w, ("mean",)) + pick(GSER, w, ("mean",))
+        su.append(F.Suite(zero, "vz", {1: 1, 2: 1, 3: 1} if not th else {1: 2, 2: 2, 3: 2, 4: 1}))
     # one batch evicting several whole earlier batches of different lengths needs long tables: single-value family
     for w in NW[1:]:
         long_keys = pick(VAL, w, ("sum", "count", "size", "full")) + pick(GCOL, w, ("sum", "size")) + pick(GSER, w, ("size",))
@@ -130,6 +171,8 @@ def plan(ctx):
                 su.append(F.Suite(pick(VAL, w, ("sum", "full")), "v", {3: 0}, grid=grid))
                 su.append(F.Suite(VCK[w], "k", {1: 1, 2: 1}, grid=grid))
                 su.append(F.Suite(pick(GCOL, w, ("sum", "size", "mean", "var")) + GSER[w][:1] + GSTREAM[w], "kv3", {1: 1, 2: 1}, grid=grid))
+            su.append(F.Suite(EXTRA[w], "kv3", {1: 1, 2: 1} if not th else {1: 2, 2: 2, 3: 1}, grid=grid))
+            su.append(F.Suite(pick(VAL, w, ("mean", "sum")) + pick(GCOL, w, ("mean",)), "vz", {2: 1} if not th else {2: 2, 3: 1}, grid=grid))
     return su
 
 
